@@ -185,6 +185,7 @@ static std::string cmdRun(const std::vector<std::string>& a) {
 	bool allLog = opts.count("alllog");
 	bool validateFirst = opts.count("validate");
 	bool dataAtEnd = opts.count("data");
+	bool serAtStable = opts.count("ser");
 
 	JW w;
 	w.beginObj();
@@ -219,6 +220,11 @@ static std::string cmdRun(const std::vector<std::string>& a) {
 				w.beginArr().str("st").str(stateName(st)).endArr();
 			}
 			if (st != USCXML_INITIALIZED) recordConfig(w, interp);
+			if (serAtStable && (st == USCXML_MACROSTEPPED || st == USCXML_IDLE)) {
+				std::string ser = interp.serialize();
+				std::lock_guard<std::recursive_mutex> lock(g_recMutex);
+				w.beginArr().str("ser").str(ser).endArr();
+			}
 			if (st == USCXML_FINISHED) break;
 			if (st == USCXML_IDLE) {
 				if (nextEv < events.size()) {
